@@ -461,6 +461,8 @@ func streamCfg(spec string, starts int, small, manual, gen bool, ops string, nth
 	switch spec {
 	case "design":
 		cfg = "SPECIFICATION Spec\n" + consts + "INVARIANTS " + streamInvs + "\nPROPERTIES UnknownCtlIgnored SetOnce FinSilent\nVIEW view\nCHECK_DEADLOCK FALSE\n"
+	case "live":
+		cfg = "SPECIFICATION LiveSpec\n" + consts + "PROPERTIES CallsReturn\nCHECK_DEADLOCK FALSE\n"
 	case "gen":
 		cfg = "SPECIFICATION Spec\n" + consts + "INVARIANTS EmitStims\nCHECK_DEADLOCK FALSE\n"
 	case "trace":
@@ -614,6 +616,8 @@ func C03(c *vf.Ctx) {
 			c.Cov["tlc_runs"] = append(parts, fmt.Sprintf("Stream design small=%v manual=%v starts=%d threads=%d: generated=%d distinct=%d depth=%d wall=%.1fs", cf.small, cf.manual, k, nthr, res.Generated, res.Distinct, res.Depth, res.Wall.Seconds()))
 		}()
 	}
+	awg.Add(1)
+	go func() { defer awg.Done(); streamLiveMu(c, &amu) }()
 	defer awg.Wait()
 
 	// B. behaviours: stimulus sequences from the model (realisable ones) and seeded random ones, run on the real
@@ -761,3 +765,28 @@ func C03(c *vf.Ctx) {
 		c.Warn("%d runs dropped because quiescence was not reached in time", notQuiet)
 	}
 }
+
+// LIVEDEV: the progress property of Stream.tla alone (development entry).
+func streamLive(c *vf.Ctx) { streamLiveMu(c, &sync.Mutex{}) }
+
+func streamLiveMu(c *vf.Ctx, mu *sync.Mutex) {
+	for _, cf := range []struct{ small, manual bool }{{true, false}, {false, false}} {
+		name, mod, cfg := streamCfg("live", 2, cf.small, cf.manual, false, "AllOps", 3)
+		res, err := vf.TLC(vf.TLCOpts{Module: name, Cfg: cfg, Extra: map[string]string{name + ".tla": mod}, Timeout: 30 * time.Minute, HeapMB: 8000, Workers: 8})
+		if err != nil || res == nil || !res.Finished {
+			msg := ""
+			if res != nil {
+				msg = res.Violated + " " + res.ErrorText + "\n" + res.TraceText
+			}
+			c.Inconclusive("progress check of Stream.tla (small=%v manual=%v): %v %s", cf.small, cf.manual, err, msg)
+			return
+		}
+		mu.Lock()
+		c.AddTLC(res)
+		parts, _ := c.Cov["tlc_runs"].([]string)
+		c.Cov["tlc_runs"] = append(parts, fmt.Sprintf("Stream progress (WF of goroutine steps, write releases, user code) small=%v manual=%v starts=2 threads=3: distinct=%d wall=%.1fs", cf.small, cf.manual, res.Distinct, res.Wall.Seconds()))
+		mu.Unlock()
+	}
+}
+
+func init() { All["LIVEDEV"] = streamLive }
